@@ -53,7 +53,9 @@ var integer64 = []*instructionType{
 		immediate:    immTypeI,
 		// FIXME: Find a way how to represent those jump targets.
 		effects: func(i instruction) []expr.Effect {
-			target := regImmOp(binOpFunc(expr.Add), immTypeI, i, width64)
+			sum := regImmOp(binOpFunc(expr.Add), immTypeI, i, width64)
+			// The least-significant bit of the target is always cleared.
+			target := exprtools.BitAnd(sum, expr.NewConstInt[int8](-2, width64), width64)
 			// Address of following instruction.
 			following := expr.ConstFromUint(uint64(i.addr) + 4)
 			return []expr.Effect{
